@@ -236,6 +236,22 @@ func judge(t *treefs.Node, op treefs.Op, o outcome) (string, string, string) {
 		if len(o.diskProbs) > 0 {
 			return "disk-structure", "tree stays well formed", strings.Join(o.diskProbs, "; ")
 		}
+		if e.Class == treefs.MustFail && (op.Kind == "ReadFile" || op.Kind == "Reader") {
+			// "source exists" is not met: a read has nothing it could return - both backends must FAIL
+			// (cleanly), and a read never leaves anything behind, not even at the addressed path
+			if o.disk.Err == "" {
+				return "disk-read-of-missing-source-succeeded", "outside the preconditions both backends must still fail cleanly", fmt.Sprintf("disk filespace: %s (%s) reported success with data %q", fsx.OpString(op), e.Why, o.disk.Data)
+			}
+			if o.mem.Err == "" {
+				return "mem-read-of-missing-source-succeeded", "outside the preconditions both backends must still fail cleanly", fmt.Sprintf("memory filespace: %s (%s) reported success with data %q", fsx.OpString(op), e.Why, o.mem.Data)
+			}
+			if fsx.FlatKey(o.diskAfter) != fsx.FlatKey(t.Flat()) {
+				return "disk-failed-read-changed-tree", "outside the preconditions both backends must still fail cleanly", "disk filespace: a refused read changed the tree: " + fsx.DiffFlat(t.Flat(), o.diskAfter)
+			}
+			if fsx.FlatKey(o.memAft) != fsx.FlatKey(t.Flat()) {
+				return "mem-failed-read-changed-tree", "outside the preconditions both backends must still fail cleanly", "memory filespace: a refused read changed the tree: " + fsx.DiffFlat(t.Flat(), o.memAft)
+			}
+		}
 		return "", "", ""
 	}
 	// preconditions met: disk against the model, memory against the model, then directly against each other
